@@ -573,12 +573,14 @@ func TestC07Large(t *testing.T) { c07big.Rapid(t) }
 // stage 3: preallocation-reuse histories
 
 type reuseAction struct {
-	Op     string        `json:"op"` // list iter next advance count replace
+	Op     string        `json:"op"`              // list iter next advance count replace
+	Slot   int           `json:"slot,omitempty"`  // list slot (two lists are alive at the same time)
+	ISlot  int           `json:"islot,omitempty"` // iterator slot
 	Seg    int           `json:"seg,omitempty"`
 	Field  string        `json:"field,omitempty"`
 	Term   spec.B        `json:"term,omitempty"`
 	Except spec.DropSpec `json:"except,omitempty"`
-	Pre    int           `json:"pre,omitempty"` // 0 nil, 1 previous object, 2 a never-used empty object of the same type
+	Pre    int           `json:"pre,omitempty"` // 0 nil, 1 the object previously in that slot, 2 the shared empty sentinel
 	Flags  int           `json:"flags,omitempty"`
 	Delta  uint64        `json:"delta,omitempty"`
 	Remove []uint32      `json:"remove,omitempty"`
@@ -608,11 +610,38 @@ func genReuseCase(t *rapid.T) reuseCase {
 	for _, d := range c.A.Docs {
 		terms = append(terms, string(d.ID))
 	}
+	if gen.Chance(t, "crossTemplate", 35) {
+		// two lists alive at once, one iterator object recycled from the first list for the
+		// second, then the first list is used again
+		pick := func(label string, except spec.DropSpec, slot int) reuseAction {
+			seg := rapid.IntRange(0, 1).Draw(t, label+"seg")
+			return reuseAction{Op: "list", Slot: slot, Seg: seg, Field: rapid.SampledFrom(fields).Draw(t, label+"field"),
+				Term: spec.B(rapid.SampledFrom(terms).Draw(t, label+"term")), Except: except}
+		}
+		exB := gen.GenDrop(t, "tplEx", c.B.NumDocs())
+		if rapid.Bool().Draw(t, "tplExNonNil") {
+			exB.Nil = false
+		}
+		k := rapid.IntRange(0, 1).Draw(t, "tplISlot")
+		fl := rapid.IntRange(0, 2).Draw(t, "tplFlags")
+		c.Actions = append(c.Actions,
+			pick("tplA", spec.DropSpec{Nil: true}, 0),
+			reuseAction{Op: "iter", Slot: 0, ISlot: k, Flags: fl},
+			reuseAction{Op: "next", ISlot: k},
+			pick("tplB", exB, 1),
+			reuseAction{Op: "iter", Slot: 1, ISlot: k, Flags: rapid.IntRange(0, 2).Draw(t, "tplFlags2"), Pre: 1},
+			reuseAction{Op: "next", ISlot: k},
+			reuseAction{Op: "count"},
+			reuseAction{Op: "iter", Slot: 0, ISlot: 1 - k, Flags: fl},
+			reuseAction{Op: "next", ISlot: 1 - k},
+			reuseAction{Op: "next", ISlot: 1 - k},
+		)
+	}
 	n := rapid.IntRange(3, 40).Draw(t, "nActions")
 	for i := 0; i < n; i++ {
 		al := fmt.Sprintf("a%d", i)
-		op := rapid.SampledFrom([]string{"next", "list", "iter", "advance", "next", "count", "replace", "iter", "list"}).Draw(t, al+"op")
-		a := reuseAction{Op: op}
+		op := rapid.SampledFrom([]string{"next", "list", "iter", "advance", "next", "count", "replace", "iter", "list", "count"}).Draw(t, al+"op")
+		a := reuseAction{Op: op, Slot: rapid.IntRange(0, 1).Draw(t, al+"slot"), ISlot: rapid.IntRange(0, 1).Draw(t, al+"islot")}
 		switch op {
 		case "list":
 			a.Seg = rapid.IntRange(0, 1).Draw(t, al+"seg")
@@ -658,18 +687,32 @@ func runReuseCase(c reuseCase) *Violation {
 	defer cb()
 	segs[1] = sb
 
+	type listSlot struct {
+		pl   segment.PostingsList
+		hits []spec.Hit
+		gen  int // bumped whenever the object in the slot is (re)initialised
+		have bool
+	}
+	type iterSlot struct {
+		it      segment.PostingsIterator
+		ref     *refIter
+		flags   [3]bool
+		srcSlot int
+		srcGen  int
+		fresh   bool
+		last    int64
+	}
 	err := drive.Safe(func() error {
-		var curList segment.PostingsList
-		var listHits []spec.Hit
-		haveList := false
-		var curIter segment.PostingsIterator
-		var ref *refIter
-		var iterFlags [3]bool
-		iterValid := false
-		iterFresh := false
-		last := int64(-1)
+		var lists [2]listSlot
+		var iters [2]iterSlot
+		valid := func(k int) bool {
+			is := &iters[k]
+			return is.it != nil && is.ref != nil && lists[is.srcSlot].gen == is.srcGen
+		}
 		for i, a := range c.Actions {
 			where := fmt.Sprintf("action %d %+v", i, a)
+			ls := &lists[a.Slot&1]
+			is := &iters[a.ISlot&1]
 			switch a.Op {
 			case "list":
 				d, err := segs[a.Seg].Dictionary(a.Field)
@@ -679,12 +722,10 @@ func runReuseCase(c reuseCase) *Violation {
 				var pre segment.PostingsList
 				switch a.Pre {
 				case 1:
-					if haveList {
-						pre = curList
-						iterValid = false // the iterator reads through the recycled list
+					if ls.have {
+						pre = ls.pl // recycled: iterators reading through it become invalid (gen bump below)
 					}
 				case 2:
-					// a list obtained for an absent term: the shared empty sentinel
 					pre, _ = d.PostingsList([]byte("\x02absent\x02"), nil, nil)
 				}
 				pl, err := d.PostingsList([]byte(a.Term), drive.Bitmap(a.Except), pre)
@@ -692,45 +733,49 @@ func runReuseCase(c reuseCase) *Violation {
 					return fmt.Errorf("%s: %w", where, err)
 				}
 				ex := dropSet(a.Except)
-				listHits = filterHits(wants[a.Seg].Index[a.Field][string(a.Term)], func(doc uint64) bool { return ex[doc] })
-				curList, haveList = pl, true
-				if pl.Count() != uint64(len(listHits)) {
-					v = violation(prop, "reuse/count", "%s: Count()=%d, model %d", where, pl.Count(), len(listHits))
+				ls.hits = filterHits(wants[a.Seg].Index[a.Field][string(a.Term)], func(doc uint64) bool { return ex[doc] })
+				ls.pl, ls.have = pl, true
+				ls.gen++
+				if pl.Count() != uint64(len(ls.hits)) {
+					v = violation(prop, "reuse/count", "%s: Count()=%d, model %d", where, pl.Count(), len(ls.hits))
 					return nil
 				}
 			case "count":
-				if haveList && curList.Count() != uint64(len(listHits)) {
-					v = violation(prop, "reuse/count", "%s: Count()=%d, model %d", where, curList.Count(), len(listHits))
-					return nil
+				// every live list must keep describing its own term, whatever happened to other objects
+				for k := range lists {
+					if lists[k].have && lists[k].pl.Count() != uint64(len(lists[k].hits)) {
+						v = violation(prop, "reuse/count", "%s: list in slot %d: Count()=%d, model %d", where, k, lists[k].pl.Count(), len(lists[k].hits))
+						return nil
+					}
 				}
 			case "iter":
-				if !haveList {
+				if !ls.have {
 					continue
 				}
 				var pre segment.PostingsIterator
 				switch a.Pre {
 				case 1:
-					if curIter != nil {
-						pre = curIter
+					if is.it != nil {
+						pre = is.it // whatever iterator was in this slot, possibly made from the other list
 					}
 				case 2:
 					d, _ := segs[0].Dictionary("nosuchfield")
 					el, _ := d.PostingsList([]byte("x"), nil, nil)
 					pre = el.Iterator(true, true, true, nil)
 				}
-				iterFlags = flagSets[a.Flags]
-				curIter = curList.Iterator(iterFlags[0], iterFlags[1], iterFlags[2], pre)
-				ref = &refIter{hits: append([]spec.Hit(nil), listHits...)}
-				iterValid, iterFresh, last = true, true, -1
-				if ds, ok := describedSet(curIter); ok && !sameU64(ds, hitDocsOf(ref.hits)) {
-					v = violation(prop, "reuse/actual-bitmap", "%s: ActualBitmap/DocNum1Hit describe %v, model %v", where, ds, hitDocsOf(ref.hits))
+				is.flags = flagSets[a.Flags]
+				is.it = ls.pl.Iterator(is.flags[0], is.flags[1], is.flags[2], pre)
+				is.ref = &refIter{hits: append([]spec.Hit(nil), ls.hits...)}
+				is.srcSlot, is.srcGen, is.fresh, is.last = a.Slot&1, ls.gen, true, -1
+				if ds, ok := describedSet(is.it); ok && !sameU64(ds, hitDocsOf(is.ref.hits)) {
+					v = violation(prop, "reuse/actual-bitmap", "%s: ActualBitmap/DocNum1Hit describe %v, model %v", where, ds, hitDocsOf(is.ref.hits))
 					return nil
 				}
 			case "replace":
-				if !iterValid || !iterFresh {
+				if !valid(a.ISlot&1) || !is.fresh {
 					continue
 				}
-				o, ok := curIter.(segment.OptimizablePostingsIterator)
+				o, ok := is.it.(segment.OptimizablePostingsIterator)
 				if !ok || o.ActualBitmap() == nil {
 					continue
 				}
@@ -739,39 +784,46 @@ func runReuseCase(c reuseCase) *Violation {
 					rm[uint64(x)] = true
 				}
 				sub := roaring.New()
-				for _, h := range ref.hits {
+				for _, h := range is.ref.hits {
 					if !rm[h.Doc] {
 						sub.Add(uint32(h.Doc))
 					}
 				}
 				o.ReplaceActual(sub)
-				ref.hits = filterHits(ref.hits, func(doc uint64) bool { return rm[doc] })
+				is.ref.hits = filterHits(is.ref.hits, func(doc uint64) bool { return rm[doc] })
 			case "next", "advance":
-				if !iterValid {
+				if !valid(a.ISlot & 1) {
 					continue
 				}
-				iterFresh = false
+				is.fresh = false
 				var p segment.Posting
 				var w *spec.Hit
 				var err error
 				if a.Op == "advance" {
-					target := uint64(last+1) + a.Delta
-					p, err = curIter.Advance(target)
-					w = ref.advance(target)
+					target := uint64(is.last+1) + a.Delta
+					p, err = is.it.Advance(target)
+					w = is.ref.advance(target)
 				} else {
-					p, err = curIter.Next()
-					w = ref.next()
+					p, err = is.it.Next()
+					w = is.ref.next()
 				}
 				if err != nil {
 					return fmt.Errorf("%s: %w", where, err)
 				}
-				if dd := compareHit(p, w, iterFlags); dd != "" {
-					v = violation(prop, "reuse/sequence-mismatch", "%s (last=%d): %s", where, last, dd)
+				if dd := compareHit(p, w, is.flags); dd != "" {
+					v = violation(prop, "reuse/sequence-mismatch", "%s (last=%d): %s", where, is.last, dd)
 					return nil
 				}
 				if w != nil {
-					last = int64(w.Doc)
+					is.last = int64(w.Doc)
 				}
+			}
+		}
+		// at the end every live list still describes its own term
+		for k := range lists {
+			if lists[k].have && lists[k].pl.Count() != uint64(len(lists[k].hits)) {
+				v = violation(prop, "reuse/count", "at the end: list in slot %d: Count()=%d, model %d", k, lists[k].pl.Count(), len(lists[k].hits))
+				return nil
 			}
 		}
 		return nil
@@ -799,6 +851,9 @@ var c07reuse = Check[reuseCase]{
 			}
 			if a.Op == "iter" && a.Pre == 1 {
 				cl = append(cl, "iterator-reuse")
+			}
+			if a.Op == "iter" && a.Pre == 1 && a.Slot != a.ISlot {
+				cl = append(cl, "iterator-recycled-for-the-other-list")
 			}
 			if a.Op == "replace" {
 				cl = append(cl, "replace-actual")
